@@ -422,6 +422,19 @@ def t_param(cls, D, N, order, wrap, seed, kw=None, L=None, only=None, full=True,
     if bad:
         return False, tag + f": forward-mode derivative w.r.t. {bad} is not finite although the step is finite"
     cn = np.asarray([float(jnp.linalg.norm(c)) for c in cols])
+    # an exactly vanishing derivative must mean that the output does not depend on that parameter (a Python-level branch on a concrete
+    # coefficient value, a stop_gradient or a cast detaches a coefficient consistently in every AD mode: only a difference quotient sees it)
+    for i in range(n):
+        if cn[i] == 0.0:
+            h = 1e-4 * max(1.0, abs(float(p0[i])))
+            e = jnp.zeros(n).at[i].set(h)
+            try:
+                fd = (fn(p0 + e) - fn(p0 - e)) / (2 * h)
+            except Exception:
+                continue            # the perturbed value is not admissible (e.g. a guard): nothing to compare
+            if bool(jnp.all(jnp.isfinite(fd))) and nrm(fd) > 1e-6 * (1.0 + nrm(out)):
+                return False, tag + (f": the derivative w.r.t. {label(i)} is exactly zero in forward mode, but the output depends on it "
+                                     f"(central difference {nrm(fd):.3e}): the parameter is detached from the computation graph")
     rng = np.random.default_rng(seed + 77)
     r = rng.uniform(0.5, 1.5, n) * rng.choice([-1.0, 1.0], n)
     wts = np.where(cn > 0, r / np.where(cn > 0, cn, 1.0), 0.0)
